@@ -192,7 +192,7 @@ int cp_mpss_ver(gt_t e, const g1_t a, const g1_t b[2], const bn_t m[2],
 		}
 	}
 	RLC_CATCH_ANY {
-		result = 0;
+		result = RLC_ERR;
 	}
 	RLC_FINALLY {
 		bn_free(n);
@@ -427,7 +427,7 @@ int cp_mpsb_ver(gt_t e, const g1_t a, const g1_t b[2], const bn_t m[][2],
 		}
 	}
 	RLC_CATCH_ANY {
-		result = 0;
+		result = RLC_ERR;
 	}
 	RLC_FINALLY {
 		bn_free(n);
